@@ -213,12 +213,21 @@ class Interp:
 
     def _collect(self):
         self.dimmed = set()
+        self.data_label_pos = {}
+        pending = []
 
         def walk(body):
             for s in body:
                 if s['k'] == 'dim' and s.get('bounds') is not None:
                     self.dimmed.add(s['name'])
+                if s['k'] == 'label':
+                    pending.append(s['name'])
                 if s['k'] == 'data':
+                    # RESTORE <label>: the first item of the first DATA
+                    # statement at or after the label
+                    for lab in pending:
+                        self.data_label_pos[lab] = len(self.data)
+                    del pending[:]
                     for it in s['items']:
                         self.data.append(it)
                 for k in ('body', 'els', 'then'):
@@ -727,8 +736,11 @@ class Interp:
             pass
         elif k == 'restore':
             if s.get('label'):
-                raise Inconclusive('RESTORE label')
-            self.data_pos = 0
+                if s['label'] not in self.data_label_pos:
+                    raise Inconclusive('RESTORE to a label without DATA after it')
+                self.data_pos = self.data_label_pos[s['label']]
+            else:
+                self.data_pos = 0
         elif k == 'if':
             for i, (cond, body) in enumerate(s['arms']):
                 if self.sub_truth(cond, s, f'arm{i}' if i else None):
